@@ -50,7 +50,7 @@ def run_one(item, tier, tests, workers):
             tail = t.stdout.decode().strip().splitlines()[-1] if t.stdout else ""
             res["tests"] = "pass" if t.returncode == 0 else "FAIL(" + tail[:40] + ")"
         env = dict(os.environ, VERIF_REPO_LIB=os.path.join(wt, "lib"), VERIF_WORKERS=str(workers),
-                   VERIF_NO_SHRINK="1")
+                   VERIF_NO_SHRINK="1", VERIF_OUT_DIR=tmp)
         t0 = time.time()
         c = subprocess.run([PY, "-m", "vcheck", pid, "--tier", tier], cwd=ROOT, env=env,
                            stdout=subprocess.PIPE, stderr=subprocess.STDOUT)
